@@ -113,7 +113,27 @@ bool prop_C10exit(Tape& t, Report& rep)
         }
         main_done.store(true, std::memory_order_release);
     });
-    in->push("position fen " + ref::to_fen(root.cur) + "\n" + go + "\n");
+    // a fresh engine object per session: commands that arrive before the first `position` / `go` of a process
+    static const char* EARLY[] = {"stop", "ponderhit", "isready", "uci", "ucinewgame", "printboard", "hash", "perft 1", "staticeval", "moves e2e4", "setoption name Polyglot Sample value best", "stop"};
+    std::string early;
+    int nearly = t.chance(1, 2) ? int(t.choose(4)) : 0;
+    bool moved = false;
+    for (int i = 0; i < nearly; ++i)
+    {
+        int e = int(t.choose(12));
+        if (e == 9 && moved) e = 0;  // e2e4 is legal once (a ucinewgame in between would make it legal again; not needed)
+        moved |= e == 9;
+        early += std::string(EARLY[e]) + "\n";
+    }
+    if (nearly)
+    {
+        rep.cls("c10exit:commands_before_the_first_go");
+        desc = "[fresh engine] " + early + desc;
+        for (auto& ch : desc)
+            if (ch == '\n') ch = ';';
+        rep.decoded = desc;
+    }
+    in->push(early + "position fen " + ref::to_fen(root.cur) + "\n" + go + "\n");
     bool parked = wait_for(S.parked, 20000);
     rep.eval();
     rep.cls(std::string("c10exit:park_") + pname(point));
